@@ -778,11 +778,10 @@ theorem OGood.bin {S isNot a op l r} (h : OGood S isNot (.bin a op l r)) : OGood
   · exact this.1.2
 
 /-- an exact comparison (every comparison with a Known operand, by `cmpSafe`) is the mathematical comparison -/
-theorem cmp_exact {S ρ a o l r v} (g : OGood S false (.bin a o l r)) (hc : o.isCmp = true)
+theorem cmp_exact {S ρ a o l r v} (hs : cmpSafe S (.bin a o l r) = true) (hc : o.isCmp = true)
     (hk : l.ann.known.isSome = true ∨ r.ann.known.isSome = true) (h : eval S ρ (.bin a o l r) = some v) :
     ∃ X Y, eval S ρ l = some X ∧ eval S ρ r = some Y ∧ v = b2i (cmpZ o X Y) ∧
       (l.closed = true → toI64 X = X) ∧ (r.closed = true → toI64 Y = Y) := by
-  have hs := g.2 rfl
   simp only [cmpSafe, Bool.and_eq_true, Bool.or_eq_true, Bool.not_eq_true'] at hs
   have hfit : fits S (uac (tyOf S l) (tyOf S r)) l = true ∧ fits S (uac (tyOf S l) (tyOf S r)) r = true := by
     rcases hs.2 with q | q
@@ -827,8 +826,8 @@ theorem eqEqRule_sound {S cpp ρ cond1 cond2 v1 v2 b} (h : eqEqRule cpp cond1 co
       simp only [Option.some.injEq] at h
       rw [← h] at hb
       obtain ⟨a, b', ka, kb, hab⟩ := diffKnown_spec gr1.1.1 gr2.1.1 hb
-      obtain ⟨X1, Y1, hX1, hY1, e1, _, c1⟩ := cmp_exact g1 (by rfl) (Or.inr (by simp [ka])) h1
-      obtain ⟨X2, Y2, hX2, hY2, e2, _, c2⟩ := cmp_exact g2 (by rfl) (Or.inr (by simp [kb])) h2
+      obtain ⟨X1, Y1, hX1, hY1, e1, _, c1⟩ := cmp_exact (g1.2 rfl) (by rfl) (Or.inr (by simp [ka])) h1
+      obtain ⟨X2, Y2, hX2, hY2, e2, _, c2⟩ := cmp_exact (g2.2 rfl) (by rfl) (Or.inr (by simp [kb])) h2
       obtain ⟨rfl, _⟩ := Sim.cop gl1.1.1 gl2.1.1 hX1 hX2 (isSame_sound hs gl1.1 gl2.1 hX1 hX2)
       have q1 := known_eq gr1.1.1 ka hY1 c1
       have q2 := known_eq gr2.1.1 kb hY2 c2
@@ -840,8 +839,8 @@ theorem eqEqRule_sound {S cpp ρ cond1 cond2 v1 v2 b} (h : eqEqRule cpp cond1 co
         simp only [Option.some.injEq] at h
         rw [← h] at hb
         obtain ⟨a, b', ka, kb, hab⟩ := diffKnown_spec gl1.1.1 gl2.1.1 hb
-        obtain ⟨X1, Y1, hX1, hY1, e1, c1, _⟩ := cmp_exact g1 (by rfl) (Or.inl (by simp [ka])) h1
-        obtain ⟨X2, Y2, hX2, hY2, e2, c2, _⟩ := cmp_exact g2 (by rfl) (Or.inl (by simp [kb])) h2
+        obtain ⟨X1, Y1, hX1, hY1, e1, c1, _⟩ := cmp_exact (g1.2 rfl) (by rfl) (Or.inl (by simp [ka])) h1
+        obtain ⟨X2, Y2, hX2, hY2, e2, c2, _⟩ := cmp_exact (g2.2 rfl) (by rfl) (Or.inl (by simp [kb])) h2
         obtain ⟨rfl, _⟩ := Sim.cop gr1.1.1 gr2.1.1 hY1 hY2 (isSame_sound hs gr1.1 gr2.1 hY1 hY2)
         have q1 := known_eq gl1.1.1 ka hX1 c1
         have q2 := known_eq gl2.1.1 kb hX2 c2
@@ -910,11 +909,11 @@ theorem valueSide_val {S ρ a o l r x kn op v} (h : valueSide o l r = some (x, k
   obtain ⟨gl, gr⟩ := g.bin
   obtain ⟨k, hk'⟩ := Option.isSome_iff_exists.mp hk
   rcases hside with ⟨rfl, rfl, rfl⟩ | ⟨rfl, rfl, rfl⟩
-  · obtain ⟨X, Y, hX, hY, e, _, cY⟩ := cmp_exact g hc (Or.inr hk) hv
+  · obtain ⟨X, Y, hX, hY, e, _, cY⟩ := cmp_exact (g.2 rfl) hc (Or.inr hk) hv
     have q := known_eq gr.1.1 hk' hY cY
     refine ⟨X, hX, gl.1, ?_⟩
     rw [(known_closed gr.1.1 hk').2, e, q]; rfl
-  · obtain ⟨X, Y, hX, hY, e, cX, _⟩ := cmp_exact g hc (Or.inl hk) hv
+  · obtain ⟨X, Y, hX, hY, e, cX, _⟩ := cmp_exact (g.2 rfl) hc (Or.inl hk) hv
     have q := known_eq gl.1.1 hk' hX cX
     refine ⟨Y, hY, gr.1, ?_⟩
     rw [(known_closed gl.1.1 hk').2, e, q, cmpZ_flip]; rfl
